@@ -198,6 +198,23 @@ def r3_seed_plumbing(ctx):
         la, _ = Slicer(rp, alias_defs=False).slice_operand(t["args"][0])
         ok |= "field:shuttle_engine::scheduler::Schedule.seed" in la
     ctx.ob("C01.R3", "replay-seed", ok, "ReplayScheduler initialises its data source from schedule.seed", loc=rp.loc())
+    # ... and the data source is a function of that seed alone: nothing reachable from DataSource::{initialize, reinitialize,
+    # next_u64} consults the environment, the clock or OS randomness (an override read there would make replay ignore schedule.seed)
+    nds = 0
+    for im in prog.impls:
+        if im.get("trait") != "shuttle_engine::scheduler::data::DataSource":
+            continue
+        for meth in ("initialize", "reinitialize", "next_u64"):
+            mb = impl_method(prog, im, meth)
+            if mb is None:
+                continue
+            nds += 1
+            amb = sorted(c for c in prog.may_reach([mb.nkey]) if DENY.search(c))
+            ctx.ob("C01.R3", "data-source-pure|" + mb.nkey, not amb,
+                   "`%s` depends on its seed / own state only" % mb.nkey if not amb else
+                   "`%s` reaches an ambient source (%s): the stream replayed from schedule.seed would differ from the recorded one whenever that source differs" % (mb.nkey, amb[0]),
+                   loc=mb.loc())
+    ctx.floor("C01.R3", "DataSource methods examined", nds, 6)
 
 
 def r4_replay_cursor(ctx):
